@@ -196,7 +196,7 @@ fn gen_profile(profile: &str, seed: u64, n: usize, thorough: bool, out: &mut Out
             let maxn = 6;
             for nn in 1..=maxn {
                 for bits in 0..(1u32 << nn) {
-                    for kind in 0..6 {
+                    for kind in 0..7 {
                         for b in ["0s", "1ms", "1s500ms"] {
                             out.script(&gen::gen_c09(nn, bits, kind, b, &mut r));
                         }
@@ -209,12 +209,24 @@ fn gen_profile(profile: &str, seed: u64, n: usize, thorough: bool, out: &mut Out
                     }
                 }
             }
+            // two retried records in a row: all outcome pairs for small N, distinct kinds
+            for n1 in 1..=3usize {
+                for bits1 in 0..(1u32 << n1) {
+                    for n2 in 2..=3usize {
+                        for bits2 in 0..(1u32 << n2) {
+                            let k1 = r.below(7);
+                            let k2 = (k1 + 1 + r.below(6)) % 7;
+                            out.script(&gen::gen_c09_pair(n1, bits1, k1, n2, bits2, k2, &mut r));
+                        }
+                    }
+                }
+            }
             // random larger N
             for _ in 0..n {
                 let nn = r.range(7, 24);
                 let bits = (r.next() as u32) & ((1u32 << nn) - 1);
                 let bits = if r.chance(1, 2) { bits & !((1u32 << r.below(nn)) - 1) } else { bits };
-                out.script(&gen::gen_c09(nn, bits, r.below(6), "3ms", &mut r));
+                out.script(&gen::gen_c09(nn, bits, r.below(7), "3ms", &mut r));
             }
         }
         "c10" => {
@@ -316,7 +328,9 @@ fn gen_profile(profile: &str, seed: u64, n: usize, thorough: bool, out: &mut Out
                 let ls: Vec<&str> =
                     (0..4).filter(|i| mask & (1 << i) != 0).map(|i| labels[i]).collect();
                 let engine = *r.pick(&["mock", ""]);
-                let gap = *r.pick(&["", "", "\n", "# c\n", "\n# c\n\n"]);
+                // (guards wait for the next statement / query / system record, whatever comes in between)
+                let gap = *r.pick(&["", "", "\n", "# c\n", "\n# c\n\n", "sleep 1ms\n", "subtest x\n", "hash-threshold 0\n",
+                                   "control substitution off\n\n", "control sortmode nosort\n", "connection c9\n"]);
                 let mut c = gen::gen_c11_gap(&gl, &ls, r.below(3), engine, true, gap);
                 if r.chance(1, 2) {
                     // labels added later count from then on: a second script on the same runner
